@@ -486,6 +486,11 @@ def run_symx(prop, tier, seed, only=None):
             if pth["status"] == "abort":
                 continue
             need_feas = pth["ndec"] > 0 or pth["pre"] or pth["status"] == "panic"
+            if pth["status"] == "ok" and pth["goals"] and all(g["smt"] == "true" and g["kind"] == "goal" for g in pth["goals"]):
+                # every goal of this path is syntactically `true` (the compared results are the same hash-consed
+                # term): nothing is claimed that could be vacuous, so no feasibility query is spent on it
+                need_feas = False
+                pth["_trivial_path"] = True
             if need_feas and not pth.get("variant"):
                 tasks.append((s["name"], pth, None, min(to, 10 if tier == "quick" else 60)))
     # phase 1: feasibility
